@@ -49,10 +49,17 @@ pub(crate) enum DualTcpStream {
     SecureStream(Box<TlsStream<TcpStream>>),
     #[cfg(feature = "tls_openssl")]
     SecureStream(SslStream<TcpStream>),
+    // in-memory transport used only by the verification harness
+    #[cfg(sirc_verif)]
+    Mem(tokio::io::DuplexStream),
 }
 
 impl DualTcpStream {
     pub(crate) fn is_secure(&self) -> bool {
+        #[cfg(sirc_verif)]
+        if let DualTcpStream::Mem(_) = *self {
+            return false;
+        }
         !matches!(*self, DualTcpStream::PlainStream(_))
     }
 }
@@ -67,6 +74,8 @@ impl AsyncRead for DualTcpStream {
             DualTcpStream::PlainStream(ref mut t) => Pin::new(t).poll_read(cx, buf),
             #[cfg(any(feature = "tls_openssl", feature = "tls_rustls"))]
             DualTcpStream::SecureStream(ref mut t) => Pin::new(t).poll_read(cx, buf),
+            #[cfg(sirc_verif)]
+            DualTcpStream::Mem(ref mut t) => Pin::new(t).poll_read(cx, buf),
         }
     }
 }
@@ -81,6 +90,8 @@ impl AsyncWrite for DualTcpStream {
             DualTcpStream::PlainStream(ref mut t) => Pin::new(t).poll_write(cx, buf),
             #[cfg(any(feature = "tls_openssl", feature = "tls_rustls"))]
             DualTcpStream::SecureStream(ref mut t) => Pin::new(t).poll_write(cx, buf),
+            #[cfg(sirc_verif)]
+            DualTcpStream::Mem(ref mut t) => Pin::new(t).poll_write(cx, buf),
         }
     }
 
@@ -89,6 +100,8 @@ impl AsyncWrite for DualTcpStream {
             DualTcpStream::PlainStream(ref mut t) => Pin::new(t).poll_flush(cx),
             #[cfg(any(feature = "tls_openssl", feature = "tls_rustls"))]
             DualTcpStream::SecureStream(ref mut t) => Pin::new(t).poll_flush(cx),
+            #[cfg(sirc_verif)]
+            DualTcpStream::Mem(ref mut t) => Pin::new(t).poll_flush(cx),
         }
     }
 
@@ -97,6 +110,8 @@ impl AsyncWrite for DualTcpStream {
             DualTcpStream::PlainStream(ref mut t) => Pin::new(t).poll_shutdown(cx),
             #[cfg(any(feature = "tls_openssl", feature = "tls_rustls"))]
             DualTcpStream::SecureStream(ref mut t) => Pin::new(t).poll_shutdown(cx),
+            #[cfg(sirc_verif)]
+            DualTcpStream::Mem(ref mut t) => Pin::new(t).poll_shutdown(cx),
         }
     }
 }
